@@ -24,6 +24,13 @@ MIX = ('pred', '>', ('+', F.X, F.Y), F.C1)
 EQ = ('pred', '==', F.X, F.Y)
 
 
+def site(case):
+    """the open finding of C03 (pastify() of a past/event operator over an operand with positive horizon) also breaks what C06 states for
+    the pastified online monitor, under every semantics including STANDARD; same syntactic predicate"""
+    from . import c03
+    return c03.site(case)
+
+
 def make_hook(sem, io):
     """reference predicate hook for a semantics and an io assignment (default declarations: every variable is an output)"""
     if sem == 'standard':
@@ -55,7 +62,7 @@ def formula_set(tier):
     leaves = [(F.PX, F.PY, MIX), (MIX, F.PX, F.PY), (F.PY, EQ, F.PX), (GT, LT, GT), (NE, F.PX, NE)]
     fs = list(F.F(1, U, B, leaves))
     f2 = [f for f in F.F(2, U, B, leaves[:1] if quick else leaves) if F.size(f) == 2]
-    fs += f2[::6] if quick else f2
+    fs += f2[::6] if quick else f2[::4]
     fs += [('and', ('once', (0, 1), F.PX), ('or', MIX, ('historically', None, F.PY))), ('pred', '>=', ('abs', F.X), F.C1), ('pred', '<', ('neg', F.Y), F.C0)]
     out, seen = [], set()
     for f in fs:
@@ -194,7 +201,7 @@ def run_shard(shard, tier, res):
         text = mtext or ('out = ' + F.pr(f))
         res.formulas += 1
         n = 3 if len(vs) == 1 else 2
-        if not quick:
+        if not quick and len(vs) == 1:
             n += 1
         if len(vs) == 1:
             tl = list(F.traces(n, (-1.0, 0.0, 1.0, 2.0), 1))
